@@ -29,6 +29,18 @@ for sel, cfile, ch, bs, spb, tiers, to, bp in _ADPCM:
                        bounds="%d channel(s), one block of %d bytes = %d samples per channel, every byte symbolic (incl. invalid header fields)%s" % (
                            ch, bs, spb, "" if bp is None else "; predictor number %d" % bp)))
 
+# IEEE-754 serialisers (portable "broken float" paths) against the native representation; exponent field on the grid
+for ftag, cfile, isd, exps in (("double64", "double64.c", 1, (1023, 1024, 1022, 1, 2046, 1151, 895, 1200)), ("float32", "float32.c", 0, (127, 128, 126, 1, 254, 200, 60))):
+    for e in exps:
+        for sel in ("SEL_READ", "SEL_WRITE"):
+            if sel == "SEL_WRITE" and e in (1, 895):
+                continue        # the writers store |x| < 1e-30 as 0 (their stated threshold): outside the exact-bytes claim
+            d = {"IEEE_FILE": '"%s"' % cfile, "EXP": e, sel: 1, "MF_CAP": 16}
+            if isd: d["IS_DOUBLE"] = 1
+            HARNESSES.append(H("ieee.%s.%s.e%d" % (ftag, sel[4:].lower(), e), "C20/ieee.c", link=["common"], stubs=["psf_log_printf"], defines=d, unwind=10, checks="mem", solver="cadical",
+                               include_env=("log_stub", "memfile", "libm_model"), timeout=400,
+                               functions=["%s_le_read / _be_read" % ftag if sel == "SEL_READ" else "%s_le_write / _be_write" % ftag],
+                               bounds="biased exponent field %d (normal numbers; writers only for |x| >= 1e-30, below which they store 0), sign and every mantissa bit symbolic, both byte orders" % e))
 META = {
     "assumptions": [],
     "outside": [],
